@@ -178,6 +178,13 @@ def unused(a):
 class K:
     def meth(self, x):
         return x
+
+
+def calls_back(n):
+    """A module of the program imports the SCRIPT under its real name and calls into it: that function object belongs to
+    module `script`, not to `__main__`, although both were made from one file."""
+    import script
+    return script.helper(n)
 '''
 
 PKG_MAIN = '''def pmain(x):
@@ -201,12 +208,18 @@ class InMain:
         return U.also_used(y)
 
 
+def helper(n):
+    return str(n)
+
+
 if __name__ == "__main__":
     main_func(1)
     InMain().m("s")
     pmain(7)
     U.K().meth(2.5)
     (lambda z: z)(3)
+    helper(0)
+    U.calls_back(4)
 '''
 
 
@@ -288,7 +301,8 @@ def run_main_scenarios(tid0, n, seed):
             c.close()
             recs.append({"tid": tid0 + j, "ev": "Run", "modules": sorted({r[0] for r in rows}),
                          "expected": sorted(["%s.used" % user, "%s.also_used" % user, "%s.K.meth" % user,
-                                             "%s_pkg.__main__.pmain" % user, "%s_pkg.__main__.parse" % user]),
+                                             "%s_pkg.__main__.pmain" % user, "%s_pkg.__main__.parse" % user,
+                                             "%s.calls_back" % user, "script.helper"]),
                          "got": sorted({"%s.%s" % r for r in rows}), "mode": " ".join(mode)})
         finally:
             shutil.rmtree(d, ignore_errors=True)
@@ -446,7 +460,8 @@ def custom_filter_scenarios(seed, n, tier):
     scs = []
     for i, b in enumerate(beh):
         admit = sorted(rng.sample(names, rng.randint(0, len(names))))
-        scs.append({"tid": i + 1, "hist": b["hist"], "rate": 0, "k": 0, "seed": seed * 31 + i, "admit": admit, "twin_rejected": i % 2 == 1, "falsy_filter": i % 5 == 2})
+        scs.append({"tid": i + 1, "hist": b["hist"], "rate": 0, "k": 0, "seed": seed * 31 + i, "admit": admit, "twin_rejected": i % 2 == 1, "falsy_filter": i % 5 == 2,
+                    "filter_values": [None, "re", "count", "text", "seq"][i % 5] if i % 5 != 2 else None, "nested": i % 7 == 3})
     # directed: two code objects of one file with the same short name, called in one session in both orders, the filter
     # admitting exactly one of them (by qualified name)
     call = lambda i: [{"op": "Call", "f": "F", "id": i, "v": "int", "catch": True, "draw": 0},  # noqa: E731
@@ -518,7 +533,7 @@ def main(pid, tier, seed, replay=None):
     for v in tv:
         for clause in v.get("viol", []):
             if clause in ("OnlyAdmitted", "MissingLog", "MissingOrOutOfOrder", "SpuriousLog"):
-                run.violation({"clause": "CustomFilter:" + clause}, {k: sc_by[v["tid"]][k] for k in ("hist", "seed", "admit", "rate", "k", "force", "twin_rejected", "falsy_filter") if k in sc_by[v["tid"]]})
+                run.violation({"clause": "CustomFilter:" + clause}, {k: sc_by[v["tid"]][k] for k in ("hist", "seed", "admit", "rate", "k", "force", "twin_rejected", "falsy_filter", "filter_values", "nested") if k in sc_by[v["tid"]]})
     plan.append({"family": "custom filters: random subsets of the scripted program's functions (tracer replay)", "cases": len(trecs)})
     from . import replay_run
     extended = None if replay else replay_run.extended_stage(tier, seed)
